@@ -106,6 +106,11 @@ class PySet(list):
         return PySet(copy.deepcopy(x, memo) for x in self)
 
 
+class DefaultDict(dict):
+    """collections.defaultdict: a missing key is created by calling `factory`"""
+    factory = None
+
+
 class Opaque:
     """opaque library value / result; `tag` is its provenance"""
 
@@ -445,7 +450,7 @@ _STR_METHODS = {"lower", "upper", "startswith", "endswith", "strip", "replace", 
                 "lstrip", "rstrip", "title", "capitalize", "isdigit", "isnumeric", "isalpha", "encode", "find",
                 "count", "zfill", "ljust", "rjust", "splitlines", "partition", "rpartition", "casefold", "isspace"}
 _DICT_METHODS = {"items", "keys", "values", "get", "pop", "update", "copy", "setdefault"}
-_LIST_METHODS = {"append", "index", "copy", "pop", "extend", "insert", "remove", "count"}
+_LIST_METHODS = {"append", "index", "copy", "pop", "extend", "insert", "remove", "count", "sort", "reverse", "clear"}
 
 
 class Interp:
@@ -535,7 +540,8 @@ class Interp:
         r = self.model.resolve(modname, name)
         if r is None:
             if ("builtins." + name) in self.ext or name in _BUILTIN_EXC or name in (
-                    "dict", "str", "list", "tuple", "float", "int", "bool", "set", "object", "type", "slice", "map"):
+                    "dict", "str", "list", "tuple", "float", "int", "bool", "set", "object", "type", "slice", "map",
+                    "sum", "reversed", "filter", "callable", "divmod", "pow"):       # (the last six: generic_ext)
                 return ExtRef("builtins." + name)
             self.err(node, f"unresolved name '{name}' in module {modname}")
         return self.wrap_resolved(r)
@@ -625,7 +631,7 @@ class Interp:
         env = self.bind(fi, args, kwargs, node, self_obj)
         if closure:
             for k_, v_ in closure.items():
-                if k_ not in env:
+                if k_ not in env and k_ != "__nonlocals__":
                     env[k_] = v_
         if fi.qualname in self.watch:
             self.calls.append((fi.qualname, dict(env), getattr(node, "lineno", None),
@@ -651,6 +657,10 @@ class Interp:
         finally:
             self.stack.pop()
             self.depth -= 1
+            if closure is not None:
+                for nm_ in env.get("__nonlocals__", ()):       # `nonlocal x`: the enclosing frame sees the rebinding
+                    if nm_ in env:
+                        closure[nm_] = env[nm_]
 
     def e_Yield(self, node, env):
         env["__yield__"].append(self.eval(node.value, env) if node.value is not None else None)
@@ -706,6 +716,9 @@ class Interp:
                 r = fb(self, fv.dotted, args, kwargs, node)
                 if r is not NotImplemented:
                     return r
+            r = self.generic_ext(fv.dotted, args, kwargs, node)
+            if r is not NotImplemented:
+                return r
             self.err(node, f"no summary for external callable '{fv.dotted}'")
         if isinstance(fv, LibMethod):
             return self.call_libmethod(fv.recv, fv.name, args, kwargs, node)
@@ -776,6 +789,91 @@ class Interp:
         return type(v).__name__
 
     # -- library methods -------------------------------------------------------
+    def generic_ext(self, dotted, args, kwargs, node):
+        """last resort before 'no summary': library callables whose meaning is fixed by the language (aliases of summarised ones,
+        unbound method spellings, container helpers)"""
+        mod, _, name = dotted.rpartition(".")
+        if mod == "math" and f"numpy.{name}" in self.ext:                     # math.sqrt(x) == numpy.sqrt(x) on scalars
+            return self.ext[f"numpy.{name}"](self, args, kwargs, node)
+        if mod in ("builtins.str", "builtins.dict", "builtins.list", "builtins.tuple", "builtins.set") and args and name != "fromkeys":
+            return self.call_value(self.getattr_(args[0], name, node), list(args[1:]), dict(kwargs), node)      # str.join(sep, xs) == sep.join(xs)
+        if dotted == "builtins.dict.fromkeys":
+            return {k: (args[1] if len(args) > 1 else None) for k in self.iterate(args[0], node)}
+        if dotted == "collections.OrderedDict":
+            return self.call_value(ExtRef("builtins.dict"), list(args), dict(kwargs), node)
+        if dotted == "collections.defaultdict":
+            d = DefaultDict()
+            d.factory = args[0] if args else None
+            if len(args) > 1:
+                d.update(self.call_value(ExtRef("builtins.dict"), list(args[1:]), dict(kwargs), node))
+            return d
+        if dotted in ("copy.copy", "copy.deepcopy"):
+            return self.copy_value(args[0], dotted.endswith("deepcopy"), node)
+        if dotted == "itertools.starmap":
+            return [self.call_value(args[0], list(self.iterate(t, node)), {}, node) for t in self.iterate(args[1], node)]
+        if dotted == "itertools.product" and not kwargs:
+            import itertools as _it
+            return [tuple(c) for c in _it.product(*[list(self.iterate(a, node)) for a in args])]
+        if dotted == "itertools.zip_longest":
+            import itertools as _it
+            return [tuple(c) for c in _it.zip_longest(*[list(self.iterate(a, node)) for a in args], fillvalue=kwargs.get("fillvalue"))]
+        if dotted == "itertools.chain.from_iterable":
+            return [x for it in self.iterate(args[0], node) for x in self.iterate(it, node)]
+        if dotted == "itertools.compress":
+            return [x for x, c in zip(self.iterate(args[0], node), self.iterate(args[1], node)) if self.truth(c, node)]
+        if dotted == "builtins.filter":
+            keep = (lambda x: self.truth(x, node)) if args[0] is None else (lambda x: self.truth(self.call_value(args[0], [x], {}, node), node))
+            return [x for x in self.iterate(args[1], node) if keep(x)]
+        if dotted == "builtins.reversed":
+            return list(reversed(list(self.iterate(args[0], node))))
+        if dotted == "builtins.sum":
+            acc = args[1] if len(args) > 1 else kwargs.get("start", Num.const(0))
+            for x in self.iterate(args[0], node):
+                acc = self.binop(ast.Add(), acc, x, node)
+            return acc
+        if dotted == "builtins.callable":
+            return isinstance(args[0], (FuncRef, LambdaRef, ExtRef, LibMethod, ClassRef)) or bool(getattr(args[0], "callable_", False)) or \
+                (isinstance(args[0], Obj) and ((args[0].cls is not None and args[0].cls.find_method("__call__") is not None) or
+                                               (self.kind_of(args[0]), "__call__") in self.libmeth))
+        if dotted == "builtins.pow" and len(args) == 2:
+            return self.binop(ast.Pow(), args[0], args[1], node)
+        if dotted == "builtins.divmod":
+            return (self.binop(ast.FloorDiv(), args[0], args[1], node), self.binop(ast.Mod(), args[0], args[1], node))
+        if dotted in ("operator.not_",):
+            return not self.truth(args[0], node)
+        if dotted == "operator.truth":
+            return self.truth(args[0], node)
+        if dotted == "operator.contains":
+            return self.compare(ast.In(), args[1], args[0], node)
+        if dotted == "operator.abs" and "builtins.abs" in self.ext:
+            return self.ext["builtins.abs"](self, args, kwargs, node)
+        if dotted == "operator.setitem":
+            return self.setitem(args[0], args[1], args[2], node)
+        return NotImplemented
+
+    def copy_value(self, v, deep, node):
+        if isinstance(v, PySet):
+            return PySet(self.copy_value(x, deep, node) if deep else x for x in v)
+        if isinstance(v, DefaultDict):
+            d = DefaultDict((k, self.copy_value(x, deep, node) if deep else x) for k, x in v.items())
+            d.factory = v.factory
+            return d
+        if isinstance(v, dict):
+            return {k: (self.copy_value(x, deep, node) if deep else x) for k, x in v.items()}
+        if isinstance(v, list):
+            return [self.copy_value(x, deep, node) if deep else x for x in v]
+        if isinstance(v, tuple):
+            return tuple(self.copy_value(x, deep, node) if deep else x for x in v)
+        if isinstance(v, Obj) and v.cls is not None and (v.cls.find_method("__copy__") or v.cls.find_method("__deepcopy__")):
+            self.err(node, "copy of an object that customises copying")
+        if isinstance(v, Obj) and (self.kind_of(v), "copy") in self.libmeth and v.cls is None:
+            return self.libmeth[(self.kind_of(v), "copy")](self, v, [], {}, node)
+        if isinstance(v, Obj) and v.cls is not None:
+            return Obj(cls=v.cls, kind=v.kind, label=f"{v.label}.copy", attrs={k: (self.copy_value(x, deep, node) if deep else x) for k, x in v.attrs.items()})
+        if isinstance(v, Obj):
+            self.err(node, f"copy of library object {self.kind_of(v)}")
+        return v         # immutable scalars, tokens, symbolic numbers
+
     def call_libmethod(self, recv, name, args, kwargs, node):
         if isinstance(recv, (bool, UnknownBool)) and name in ("any", "all", "item"):
             return recv
@@ -849,6 +947,15 @@ class Interp:
                 return Num.const(sum(1 for x in recv if self.py_eq(x, args[0]) is True))
             if name == "insert":
                 recv.insert(int(self.to_py(args[0], node)), args[1])
+                return None
+            if name == "sort":
+                recv[:] = self.call_value(ExtRef("builtins.sorted"), [list(recv)], dict(kwargs), node)
+                return None
+            if name == "reverse":
+                recv.reverse()
+                return None
+            if name == "clear":
+                del recv[:]
                 return None
             if name == "remove":
                 for i, x in enumerate(recv):
@@ -1030,6 +1137,11 @@ class Interp:
         return None
 
     def compare(self, op, a, b, node):
+        if isinstance(a, PySet) and isinstance(b, PySet) and isinstance(op, (ast.Lt, ast.LtE, ast.Gt, ast.GtE)):
+            def member(x, ys):
+                return any(self.compare(ast.Eq(), x, y, node) is True for y in ys)
+            sub, sup = all(member(x, b) for x in a), all(member(y, a) for y in b)
+            return {ast.LtE: sub, ast.Lt: sub and not sup, ast.GtE: sup, ast.Gt: sup and not sub}[type(op)]
         if (isinstance(a, Term) or isinstance(b, Term)) and type(op).__name__ in _CMP_NAME:
             return UnknownBool(f"{_term_str(a)} {_CMP_NAME[type(op).__name__]} {_term_str(b)}")
         if (_is_sym(a) or _is_sym(b)) and isinstance(op, (ast.Eq, ast.NotEq)) and \
@@ -1279,6 +1391,9 @@ class Interp:
         if isinstance(v, dict):
             k = self.hashkey(idx, node)
             if k not in v:
+                if isinstance(v, DefaultDict) and v.factory is not None:
+                    v[k] = self.call_value(v.factory, [], {}, node)
+                    return v[k]
                 raise self.fault("KeyError", node, repr(k))
             return v[k]
         if isinstance(v, (list, tuple, str)):
@@ -1313,8 +1428,19 @@ class Interp:
         if isinstance(v, dict):
             v[self.hashkey(idx, node)] = value
             return
+        if isinstance(v, list) and isinstance(idx, slice):
+            try:
+                v[idx] = list(self.iterate(value, node))
+            except ValueError as e:
+                raise self.fault("ValueError", node, str(e))
+            return
         if isinstance(v, list):
-            v[int(idx.value())] = value
+            if not (isinstance(idx, Num) and idx.is_const()) and not (_is_sym(idx) and getattr(idx, "is_Integer", False)):
+                self.err(node, f"list item assignment at a non-constant position {self.describe(idx)}")
+            try:
+                v[int(idx.value()) if isinstance(idx, Num) else int(idx)] = value
+            except IndexError:
+                raise self.fault("IndexError", node, "list assignment index out of range")
             return
         kind = self.kind_of(v)
         if (kind, "__setitem__") in self.libmeth:
@@ -1779,6 +1905,11 @@ class Interp:
                    lambda e: out.__setitem__(self.hashkey(self.eval(node.key, e), node), self.eval(node.value, e)))
         return out
 
+    def e_NamedExpr(self, node, env):
+        v = self.eval(node.value, env)
+        self.assign(node.target, v, env)
+        return v
+
     def e_Lambda(self, node, env):
         lr = LambdaRef(node, env)
         # default values are evaluated when the lambda is created (the `lambda x, n=target:` idiom)
@@ -1832,6 +1963,19 @@ class Interp:
             self.setitem(self.eval(target.value, env), self.eval_index(target.slice, env), value, target)
         elif isinstance(target, (ast.Tuple, ast.List)):
             vals = self.iterate(value, target)
+            stars = [i for i, t in enumerate(target.elts) if isinstance(t, ast.Starred)]
+            if len(stars) == 1:          # first, *rest = xs
+                i, after = stars[0], len(target.elts) - stars[0] - 1
+                if len(vals) < len(target.elts) - 1:
+                    raise self.fault("ValueError", target, "not enough values to unpack")
+                vals = list(vals)
+                mid = vals[i:len(vals) - after]
+                for t, v in zip(target.elts[:i], vals[:i]):
+                    self.assign(t, v, env)
+                self.assign(target.elts[i].value, list(mid), env)
+                for t, v in zip(target.elts[i + 1:], vals[len(vals) - after:] if after else []):
+                    self.assign(t, v, env)
+                return
             if len(vals) != len(target.elts):
                 raise self.fault("ValueError", target, "unpack length mismatch")
             for t, v in zip(target.elts, vals):
@@ -2022,6 +2166,9 @@ class Interp:
     def s_FunctionDef(self, st, env):
         fi = FuncInfo(self.model.module(env["__module__"]), st, None)
         env[st.name] = FuncRef(fi, closure=env)
+
+    def s_Nonlocal(self, st, env):
+        env.setdefault("__nonlocals__", set()).update(st.names)
 
     def s_Global(self, st, env):
         env.setdefault("__globals__", set()).update(st.names)
@@ -2307,7 +2454,19 @@ class Interp:
         E["builtins.len"] = b_len
         E["builtins.isinstance"] = b_isinstance
         E["builtins.float"] = b_float
-        E["builtins.int"] = b_float
+        def b_int(I, a, k, n):
+            v = a[0] if a else Num.const(0)
+            if isinstance(v, Num) and v.is_const() and v.value().denominator != 1:
+                return Num.const(int(v.value()))            # int() truncates toward zero
+            if _is_sym(v) and getattr(v, "is_number", False) and v.is_real and not v.is_Integer and v.is_finite:
+                return _sp.Integer(int(v))
+            if isinstance(v, str):
+                try:
+                    return Num.const(int(v, *( [int(I.to_py(a[1], n))] if len(a) > 1 else [])))
+                except ValueError:
+                    raise I.fault("ValueError", n, f"invalid literal for int() with base 10: {v!r}")
+            return b_float(I, a, k, n)
+        E["builtins.int"] = b_int
         E["builtins.str"] = b_str
         E["builtins.repr"] = lambda I, a, k, n: Opaque("str")
         E["builtins.format"] = lambda I, a, k, n: b_str(I, a[:1], {}, n) if (len(a) == 1 or a[1] == "") else Opaque("str")
